@@ -55,6 +55,11 @@ func checkC16(c *Ctx) {
 	// 'stored' event
 	nR := c.borrow(checkC15, "C15/ACTOR/broadcast-unconditional", "C16/RELAY/unconditional", "every hub operation that relays stored/deleted events to the listeners does so on every path")
 	r.Floor("C16/RELAY/unconditional", "borrowed obligations", nR, 1)
+	// after quiescence the hub's replay history holds exactly the stored-and-not-deleted
+	// messages only if the search that drops a deleted message looks at every slot of the ring
+	// (decided by C15's ring-walk rule)
+	nH := c.borrow(checkC15, "C15/HISTORY/full-cycle", "C16/HISTORY/full-cycle", "every walk over the history ring that looks for a message inspects all N slots")
+	r.Floor("C16/HISTORY/full-cycle", "borrowed obligations", nH, 1)
 	// a delivery that overwrites the index with a list it loaded before releasing the lock undoes
 	// what happened in between: a stored message vanishes without a 'deleted' event, a deleted
 	// one comes back without a 'stored' event (decided by C09's critical-section rule)
